@@ -172,3 +172,113 @@ class SimFS:
         for mod in (fjm_writer, fjm_reader, functions):
             if 'open' in mod.__dict__:
                 del mod.__dict__['open']
+
+
+# ------------------------------------------------------------------------------------------------------------------
+class _ProxyFile:
+    """a REAL file behind numbered, fault-injectable operations (write-through: every write that returns is on disk)"""
+
+    def __init__(self, fs, real, path, mode):
+        self.fs = fs
+        self.real = real
+        self.path = path
+        self.mode = mode
+        self.closed = False
+
+    def __enter__(self):
+        return self
+
+    def __exit__(self, exc_type, exc, tb):
+        try:
+            self.close()
+        except OSError:
+            if exc_type is None:
+                raise
+        return False
+
+    def _put(self, data):
+        self.real.write(data)
+        self.real.flush()
+        self.fs.written[self.path] = self.fs.written.get(self.path, 0) + len(data)
+        self.fs.write_calls.setdefault(self.path, []).append(len(data))
+
+    def write(self, data):
+        op = self.fs._op('write', self.path, len(data))
+        plan = self.fs.plan
+        if plan and plan.get('op') == op:
+            if plan['kind'] == 'oserror':
+                raise OSError(plan.get('errno', errno.EIO), os.strerror(plan.get('errno', errno.EIO)), self.path)
+            if plan['kind'] == 'short':
+                n = min(len(data), plan.get('bytes', len(data) // 2))
+                self._put(data[:n])
+                raise OSError(errno.ENOSPC, os.strerror(errno.ENOSPC), self.path)
+        if plan and plan.get('kind') == 'crash' and plan.get('path') == self.path:
+            room = plan['byte'] - self.fs.written.get(self.path, 0)
+            if room < len(data):
+                self._put(data[:max(0, room)])
+                self.fs.fired = True
+                raise SimCrash(f'crash after byte {plan["byte"]} of {self.path}')
+        self._put(data)
+        return len(data)
+
+    def read(self, n=-1):
+        op = self.fs._op('read', self.path, n)
+        plan = self.fs.plan
+        if plan and plan.get('op') == op and plan['kind'] == 'oserror':
+            raise OSError(plan.get('errno', errno.EIO), os.strerror(plan.get('errno', errno.EIO)), self.path)
+        return self.real.read(n)
+
+    def close(self):
+        if self.closed:
+            return
+        self.closed = True
+        op = self.fs._op('close', self.path, 0)
+        self.real.close()
+        plan = self.fs.plan
+        if plan and plan.get('op') == op and plan['kind'] == 'oserror':
+            raise OSError(plan.get('errno', errno.EIO), os.strerror(plan.get('errno', errno.EIO)), self.path)
+
+
+class FaultFS:
+    """a REAL directory whose files are opened through numbered, fault-injectable operations. Everything else
+    (stat, exists, unlink, rename) is the real file system, so code that inspects or removes its output sees the truth."""
+
+    def __init__(self, base):
+        self.base = str(base)
+        self.ops = []
+        self.plan = None
+        self.written = {}
+        self.write_calls = {}
+        self.fired = False
+
+    def reset_log(self):
+        self.ops = []
+        self.written = {}
+        self.write_calls = {}
+        self.fired = False
+
+    def _op(self, kind, path, arg):
+        idx = len(self.ops)
+        self.ops.append((idx, kind, path, arg))
+        if self.plan and self.plan.get('op') == idx:
+            self.fired = True
+        return idx
+
+    def owns(self, path):
+        return str(path).startswith(self.base)
+
+    def open(self, path, mode='r', *args, **kwargs):
+        p = str(path)
+        if not self.owns(p):
+            return io.open(path, mode, *args, **kwargs)
+        op = self._op('open:' + mode, p, 0)
+        plan = self.plan
+        if plan and plan.get('op') == op and plan['kind'] == 'oserror':
+            raise OSError(plan.get('errno', errno.EACCES), os.strerror(plan.get('errno', errno.EACCES)), p)
+        return _ProxyFile(self, io.open(path, mode, *args, **kwargs), p, mode)
+
+    def install(self):
+        from flipjump.fjm import fjm_writer
+        from flipjump.utils import functions
+        fjm_writer.open = self.open
+        functions.open = self.open
